@@ -110,4 +110,34 @@ SPECS = {
         "real": ["all 11 documented lerax wrappers, AbstractEnvLike.step/reset"],
         "stub": ["SimMDP finite-MDP environments"],
     },
+    "C12": {
+        "scenarios": [
+            {"name": "collect_on", "runs": {"quick": 160, "thorough": 1000000}, "chunks": {"quick": 1, "thorough": 1}},
+            {"name": "offpolicy", "runs": {"quick": 120, "thorough": 1000000}, "chunks": {"quick": 1, "thorough": 1}},
+            {"name": "protocol", "runs": {"quick": 60, "thorough": 1000000}, "chunks": {"quick": 1, "thorough": 1}},
+        ],
+        "budget_s": {"quick": 600, "thorough": 1200},
+        "rule": "one evaluation = one seeded run with an injected fault or mode knob: (a) F.node_perturb: one parallel node's start state / policy "
+        "state is changed and the real vectorised iteration re-run — every other node's buffer slice and carried state must be bit-identical; "
+        "(b) the vmapped collect_rollout call vs N single-environment calls from the same keys and start states; (c) F.exec_mode: the same "
+        "step executed eagerly / vmapped vs jitted; non-trivial = a fault/mode knob actually fired; distinct = distinct (shape class, fired kinds)",
+        "assumptions": ["first sentence decided on states reached by simulated runs of SimMDP stacks; built-in environments' mode equality is part of the rollout scenario"],
+        "real": REAL_ON + ["lerax off_policy vectorised reset/iteration", "env.step under jax.disable_jit and filter_vmap"],
+        "stub": STUB_MDP,
+    },
+    "C16": {
+        "scenarios": [
+            {"name": "mask_query", "runs": {"quick": 60, "thorough": 1000000}, "chunks": {"quick": 1, "thorough": 1}},
+            {"name": "collect_on", "runs": {"quick": 160, "thorough": 1000000}, "chunks": {"quick": 1, "thorough": 1}},
+        ],
+        "budget_s": {"quick": 600, "thorough": 1200},
+        "rule": "one evaluation = one seeded simulated run: (mask_query) episodes on a masked SimMDP whose mask changes with the state, with shadow "
+        "queries at every step in key-less / keyed (K keys) / epsilon-greedy modes of table policies and of the real MLPActorCriticPolicy / MLPQPolicy; "
+        "(collect_on) the real on-policy collection with masks, the environment poisoning any masked action; non-trivial = a single-action mask, a mask "
+        "change or a state where a non-greedy action was possible occurred; distinct = distinct (shape class, fired event kinds)",
+        "assumptions": ["invariants over simulated interactions, not the all-parameters identity", "epsilon bound decided as a count over K=4096 keys with Hoeffding slack at 1e-12",
+                        "off-policy collection passes no mask to the policy (not part of the statement), so Q policies are judged through shadow queries only"],
+        "real": ["lerax Categorical/MultiCategorical/Bernoulli.mask, ActionLayer, MLPActorCriticPolicy, AbstractQPolicy.__call__, MLPQPolicy", "on-policy collection loop"],
+        "stub": STUB_MDP[:2],
+    },
 }
